@@ -1,4 +1,5 @@
 import Ledger.Proofs.SchedUnique
+import Ledger.Proofs.SchedChain
 import Ledger.Proofs.SchedHandles
 import Ledger.Proofs.SchedWitnesses
 
@@ -44,6 +45,15 @@ theorem ledgers_independent (w w' : World) (s : Sid) (l ref : Nat) (o : Out)
       refine ⟨rfl, by simp, ?_⟩
       intro l' hne
       simp [hne]
+
+/-- `log_ids_commit_order_sync`: HASH_LOGS=SYNC — for every schedule and all programs following the
+    discipline of `Ledger.C09s.chain_linear_any_schedule` (log INSERT under `pg_advisory_xact_lock`,
+    held to commit; proved for the real create path on a ledger in use), the log ids of the ledger are
+    strictly increasing in COMMIT order. -/
+theorem log_ids_commit_order_sync (l₀ : Nat) (σ : Schedule) (w₀ : World)
+    (hg : GInv ⟨logKey l₀, l₀, true⟩ w₀) (hc : ChainInv ⟨logKey l₀, l₀, true⟩ w₀) :
+    (((run σ w₀).logCommits.filter (fun c => c.1 = l₀)).map (·.2.1)).Pairwise (· < ·) :=
+  (chainInv_run ⟨logKey l₀, l₀, true⟩ rfl σ w₀ hg hc).2.cinc
 
 /-! ## counterexamples: two writers on disjoint accounts -/
 
